@@ -362,6 +362,11 @@ func TestC17(t *testing.T) {
 			c, _, v, _ := defaultXCfg(rt, avoid)
 			c.MoreEmpty = rapid.Bool().Draw(rt, "more_empty")
 			c.WantMatch = rapid.Bool().Draw(rt, "want_match")
+			// a packet that is named only inside an inline object of a referenced packet: the
+			// sample of the root reaches it, the root's own declarations do not
+			if !avoid["inline"] && !avoid["obj"] && !avoid["inline:obj"] && rapid.IntRange(0, 3).Draw(rt, "inline_chain") == 0 {
+				c.PostProgram = dsl.AddInlineChain
+			}
 			return c, 1, v, false
 		},
 		nontrivial: func(k xCase) bool {
